@@ -1,6 +1,22 @@
-import Tahoe.BackupDb.LemmasDir
+import Tahoe.BackupDb.LemmasSession
 /-! C42 — the backup database reuses caps only for unchanged content (property theorems; model in
-    `Tahoe/BackupDb.lean`, helper lemmas in `Tahoe/BackupDb/Lemmas*.lean`). -/
+    `Tahoe/BackupDb.lean` and `Tahoe/BackupDb/Session.lean`, helper lemmas in `Tahoe/BackupDb/Lemmas*.lean`).
+
+    ## Coverage of the statement
+
+    | clause of the statement (properties.jsonl) | theorem(s) |
+    |---|---|
+    | for any history of local file changes and backup runs | the theorems quantify over every list of API calls (`run`) and over every session of the tool working through result objects (`srun`, incl. old objects); the `os.stat` triple seen by each `check_file` is an argument, so all file-change histories — also writes between `check_file` and `did_upload` — are covered: `session_reuse_only_if_unchanged`, `session_results_carry_sampled_stat` |
+    | a previously uploaded file cap is reused only when path, size, mtime and ctime all match the record of its most recent upload | `reuse_only_if_unchanged` (the cap is that upload's); the record is the stat sampled at check time: `did_upload_records_sampled_stat`, `reuse_only_if_sampled_stat_unchanged` (seeded change C42-c); exact comparison, no tolerance (C42-a), is the model's `checkFile` tied by correspondence |
+    | … and timestamps are trusted | same theorems: `useTs = true` is part of the conclusion |
+    | (mechanism) the cap found for a path is the one that was uploaded: fileid allocation | `fileid_of_cap_unique` (same cap ⇒ same fileid), `fileid_determines_cap` (different caps ⇒ different fileids), `alloc_stable_along_history` (a cap keeps its fileid whatever is inserted later, in any table), `alloc_independent_of_other_tables` (seeded change C42-b) |
+    | a directory cap is reused only for exactly the same name-to-cap contents | `dir_reuse_only_same_contents`, `dir_reuse_witness`, `session_dir_reuse_only_same_contents` under the explicit hypothesis that the directory hash is injective; the encoding part without hypothesis: `dir_encoding_injective` (+ `dir_encoding_canonical`) |
+    | (not in the statement) when a check of the stored cap is requested | `no_check_within_a_month`, `always_check_after_two_months` |
+
+    Not covered by a theorem (correspondence only): SQLite itself (tables are finite maps), `abspath_expanduser_unicode`,
+    the float arithmetic of the check probability, SHA-256d/base32 (hypothesis `Function.Injective H`), and that
+    tahoe_backup.py uses the result objects as `SOp` says (six tool-level cases in the harness drive the real
+    `BackerUpper.upload`). -/
 namespace Tahoe.C42
 open Tahoe.BackupDb Tahoe.Generated
 
@@ -146,6 +162,84 @@ example : Function.Injective (id : Bytes → Bytes) ∧
       = some [9] := by
   refine ⟨fun _ _ h => h, ?_⟩
   simp [checkDirectory, run, step, didCreateDirectory, put, BackupDb.get, DirResult.wasCreated]
+
+/-! ### the caps table: fileid allocation (`get_or_allocate_fileid_for_cap`) -/
+
+/-- same cap ⇒ same fileid: after any history a cap occurs in `caps` under at most one fileid -/
+theorem fileid_of_cap_unique (H : Bytes → K) (ops : List Op) (i j : Nat) (c : Bytes)
+    (hi : (i, c) ∈ (run H ops).caps) (hj : (j, c) ∈ (run H ops).caps) : i = j :=
+  caps_unique_run H ops i j c hi hj
+
+/-- different caps ⇒ different fileids: after any history a fileid names one cap, and it is the one `check_file` reads -/
+theorem fileid_determines_cap (H : Bytes → K) (ops : List Op) (i : Nat) (c c' : Bytes)
+    (h : (i, c) ∈ (run H ops).caps) (h' : (i, c') ∈ (run H ops).caps) :
+    c = c' ∧ get i (run H ops).caps = some c := by
+  obtain ⟨hok, _⟩ := fileInv_run H ops
+  have h1 := (hok i c h).2
+  have h2 := (hok i c' h').2
+  rw [h1] at h2
+  exact ⟨Option.some.inj h2, h1⟩
+
+/-- a cap keeps its fileid: whatever calls follow (inserts into any table), allocating for a cap that is already
+    known returns the fileid it was given first -/
+theorem alloc_stable_along_history (H : Bytes → K) (ops more : List Op) (i : Nat) (c : Bytes)
+    (h : (i, c) ∈ (run H ops).caps) : (alloc (run H (ops ++ more)) c).2 = i := by
+  have hm : (i, c) ∈ (run H (ops ++ more)).caps := by
+    rw [run_append]; exact caps_mono_foldl H more _ i c h
+  have hr := alloc_result_mem (run H (ops ++ more)) c
+  have hm' := alloc_mem_mono (run H (ops ++ more)) c i c hm
+  have hu := alloc_unique _ c (caps_unique_run H (ops ++ more))
+  exact hu _ _ c hr hm'
+
+omit [DecidableEq K] in
+/-- the fileid depends on the `caps` table only — not on rows of other tables nor on what was inserted last -/
+theorem alloc_independent_of_other_tables (db1 db2 : Db K) (cap : Bytes)
+    (hc : db1.caps = db2.caps) (hn : db1.nextId = db2.nextId) : (alloc db1 cap).2 = (alloc db2 cap).2 := by
+  unfold alloc
+  rw [hc, hn]
+  split <;> rfl
+
+example : (alloc (run (K := Bytes) id [Op.didUpload [1] [2] 5 6 7 100, Op.didCreateDir [9] [] 101,
+      Op.didUpload [3] [4] 5 6 7 102]) [1]).2 = 1
+    ∧ (alloc (run (K := Bytes) id [Op.didUpload [1] [2] 5 6 7 100, Op.didUpload [3] [4] 5 6 7 102]) [3]).2 = 2
+    ∧ (alloc (run (K := Bytes) id [Op.didUpload [1] [2] 5 6 7 100, Op.didUpload [3] [4] 5 6 7 102]) [8]).2 = 3 := by
+  decide
+
+/-! ### sessions: the tool working through `FileResult` / `DirectoryResult` objects -/
+
+/-- every `FileResult` of a session carries exactly the path and stat its `check` step sampled (in order) -/
+theorem session_results_carry_sampled_stat (H : Bytes → K) (sops : List SOp) :
+    (srun H sops).fres.map (fun r => (r.path, Stat.mk r.size r.mtime r.ctime)) = checksOf sops := by
+  have := fres_foldl H sops {}
+  simpa [srun] using this
+
+/-- Over any session — checks, `did_upload`/`did_check_healthy` on any (also old) result object, directory calls,
+    direct API calls — `check_file` reports a cap only if timestamps are trusted and the stat now equals the one
+    recorded by the most recent upload of that path, and the cap is that upload's. -/
+theorem session_reuse_only_if_unchanged (H : Bytes → K) (sops : List SOp) (path : Bytes) (st : Stat)
+    (useTs : Bool) (now : Int) (rnd : Nat) (c : Bytes)
+    (h : (checkFile (srun H sops).db path st useTs now rnd).2.wasUploaded = some c) :
+    useTs = true ∧ lastUploadOf path (srun H sops).trace = some (st.size, st.mtime, st.ctime, c) := by
+  obtain ⟨hdb, _⟩ := sessInv_run H sops
+  rw [hdb] at h
+  simpa using reuse_only_if_unchanged H _ path st useTs now rnd c h
+
+/-- … and likewise for directories (hash collision-freeness assumed). -/
+theorem session_dir_reuse_only_same_contents (H : Bytes → K) (hH : Function.Injective H) (sops : List SOp)
+    (contents : List Entry) (now : Int) (rnd : Nat) (d : Bytes)
+    (h : (checkDirectory H (srun H sops).db contents now rnd).wasCreated = some d) :
+    lastCreateOf contents (srun H sops).trace = some d := by
+  obtain ⟨hdb, _⟩ := sessInv_run H sops
+  rw [hdb] at h
+  simpa using dir_reuse_only_same_contents H hH _ contents now rnd d h
+
+example :
+    let s := srun (K := Bytes) id [SOp.check [2] ⟨7, 5, 6⟩ true 100 0, SOp.check [2] ⟨9, 8, 6⟩ true 110 0,
+      SOp.uploadVia 0 [1] 150]
+    -- the file was written (7,5,6) → (9,8,6) while its upload was in flight: the old result records (7,5,6)
+    (checkFile s.db [2] ⟨9, 8, 6⟩ true 200 0).2.wasUploaded = none
+      ∧ (checkFile s.db [2] ⟨7, 5, 6⟩ true 200 0).2.wasUploaded = some [1]
+      ∧ s.fres.length = 2 := by decide
 
 /-- no check is requested within `NO_CHECK_BEFORE` (30 days) of the last check, whatever `random()` says … -/
 theorem no_check_within_a_month (now lastChecked : Int) (rnd : Nat)
